@@ -30,9 +30,11 @@ func HiddenState(s *Sys) string {
 //
 //	SaveVersion · Set(k) · SaveVersion · DeleteVersionsTo(v) for EVERY retained v below the latest, ascending · Reopen+Load
 //
-// with every answer checked against the model; after the second save and after EACH pruning step Size + the full
-// ordered contents (every value is fetched) of the working tree and of every retained version + the saved hashes
-// are compared; after the cold reopen ALL read APIs (every key, every index, Size, iteration) of the working tree
+// with every answer checked against the model; after the second save Size + the full ordered contents (every value
+// is fetched) + saved hash of the working tree and of every retained version are compared, after EACH pruning step
+// those of the working tree and of the oldest version still retained (what pruning deletes stays deleted, so
+// damage to a younger version is seen at the latest when that version has become the oldest); after the cold reopen
+// ALL read APIs (every key, every index, Size, iteration) of the working tree
 // and of every retained version, then structural invariants and the independent hash recomputation. It makes visible what a finished or abandoned session left behind
 // in places no read API shows (orphan lists, staged batch entries, cached nodes): those only matter several
 // operations later, when a save persists them and a prune consumes them — deeper than the BFS bound.
@@ -52,8 +54,11 @@ func (sc *Scenario) RunTail(s *Sys, m *Model, pb Bounds, count func(n int), blam
 		if d := m.Step(op, res); d != "" {
 			return d
 		}
-		if obs < 0 {
+		switch {
+		case obs < 0:
 			return ""
+		case obs == obsOldest:
+			return observeOldest(s, m)
 		}
 		return ObserveMode(s, m, sc.Probe, obs)
 	}
@@ -88,7 +93,7 @@ func (sc *Scenario) RunTail(s *Sys, m *Model, pb Bounds, count func(n int), blam
 		if v >= m.Latest {
 			break
 		}
-		if d := step(Op{OpPrune, int16(v)}, ObsContents); d != "" {
+		if d := step(Op{OpPrune, int16(v)}, obsOldest); d != "" {
 			return ops, d
 		}
 	}
@@ -107,4 +112,43 @@ func (sc *Scenario) RunTail(s *Sys, m *Model, pb Bounds, count func(n int), blam
 		return ops, "WorkingHash() differs from the independent recomputation over contents and shape"
 	}
 	return ops, ""
+}
+
+const obsOldest = 100
+
+// observeOldest: Size + full ordered contents of the working tree and of the oldest retained version (+ its saved hash),
+// and the version bookkeeping.
+func observeOldest(s *Sys, m *Model) string {
+	if got := s.T.Version(); got != m.Ver {
+		return fmt.Sprintf("Version()=%d, model %d", got, m.Ver)
+	}
+	if d := CheckContents(m, m.Work, s.T); d != "" {
+		return "working tree: " + d
+	}
+	ret := m.Retained()
+	av := s.T.AvailableVersions()
+	if len(av) != len(ret) {
+		return fmt.Sprintf("AvailableVersions()=%v, model retains %v", av, ret)
+	}
+	if len(ret) == 0 {
+		return ""
+	}
+	v := ret[0]
+	imm, err := s.T.GetImmutable(v)
+	if err != nil {
+		return fmt.Sprintf("GetImmutable(%d) of a retained version failed: %v", v, err)
+	}
+	d := CheckContents(m, m.Vers[v], imm)
+	h := imm.Hash()
+	imm.Close()
+	if d != "" {
+		return fmt.Sprintf("saved version %d: %s", v, d)
+	}
+	if string(h) != m.Hashes[v] {
+		return fmt.Sprintf("saved version %d: root hash changed after it was saved", v)
+	}
+	if m.First > 1 && s.T.VersionExists(m.First-1) {
+		return fmt.Sprintf("VersionExists(%d)=true for a pruned version", m.First-1)
+	}
+	return ""
 }
